@@ -209,7 +209,17 @@ pub fn eval_pattern(cfg: &Cfg, ast: &Node, flags: Flags, hays: &[Hay], known: &K
 }
 
 /// Same, with the pattern source given explicitly (patterns that come from the reference parser).
+/// Work already spent on violations (a fuel exhaustion costs as much as thousands of ordinary cases).
+/// When a broken tree makes nearly every case a violation the exploration stops early: the verdict
+/// is already decided, and the evidence says the run was cut.
+pub static VIOLATION_COST: std::sync::atomic::AtomicU64 = std::sync::atomic::AtomicU64::new(0);
+pub const VIOLATION_BUDGET: u64 = 3_000_000;
+
 pub fn eval_pattern_text(cfg: &Cfg, ast: &Node, pat: Vec<u32>, flags: Flags, hays: &[Hay], known: &Known, st: &mut Stats) {
+    if VIOLATION_COST.load(std::sync::atomic::Ordering::Relaxed) > VIOLATION_BUDGET {
+        st.add("patterns_skipped_after_violation_budget", 1);
+        return;
+    }
     let re = match subject::compile(&pat, flags, false) {
         CompileOutcome::Ok(re) => re,
         CompileOutcome::Err(_) => {
@@ -236,6 +246,7 @@ pub fn eval_pattern_text(cfg: &Cfg, ast: &Node, pat: Vec<u32>, flags: Flags, hay
             let what: &str = $what;
             let cluster = format!("{} /{}/{}", what, sh(), flags.to_string());
             let w = pat.len() * 8 + $hay.cps.len();
+            VIOLATION_COST.fetch_add(if what.contains("did not terminate") { 2000 } else { 1 }, std::sync::atomic::Ordering::Relaxed);
             st.violation(known, pid, &cluster, w, case_json(&pat, flags, $hay, $s, what, $exp, $got));
         }};
     }
@@ -307,7 +318,10 @@ pub fn eval_pattern_text(cfg: &Cfg, ast: &Node, pat: Vec<u32>, flags: Flags, hay
                                 st.sample(|| case_json(&pat, flags, hay, bs, "agree", J::Null, seq_json(v)));
                             }
                         }
-                        Outcome::Fuel => st.add("undecided_fuel", 1),
+                        Outcome::Fuel => {
+                            st.add("undecided_fuel", 1);
+                            VIOLATION_COST.fetch_add(2000, std::sync::atomic::Ordering::Relaxed);
+                        }
                         Outcome::Panic(m) => {
                             vio!("panic during search", hay, bs, exp.as_ref().map(smatch_json).unwrap_or(J::Null), J::s(m));
                         }
@@ -399,14 +413,19 @@ pub fn eval_pattern_text(cfg: &Cfg, ast: &Node, pat: Vec<u32>, flags: Flags, hay
                 }
                 Prop::C05 => {
                     let rt = rt.as_ref().unwrap();
+                    // allowed work: K x (the reference's own steps for this haystack + size terms)
                     let bound = cfg.k_ratio * (rt.steps + n as u64 + pat.len() as u64 + 16);
+                    // the fuel is the bound (plus one) when that is below the hard cap, so that exhausting
+                    // it *is* exceeding the bound; above the cap a cut run is undecided, not a verdict
+                    let decidable = !rt.cut && bound < cfg.fuel;
+                    let fuel = if decidable { bound + 1 } else { cfg.fuel };
                     let mut progs: Vec<(&regress::Regex, &str)> = vec![(&re, "opt")];
                     if let Some(rn) = &re_noopt {
                         progs.push((rn, "no_opt"));
                     }
                     for (r, pn) in progs {
                         for mode in [subject::BT, subject::PIKE] {
-                            let o = subject::find_n(r, mode, &hay.text, bs, 64, cfg.fuel);
+                            let o = subject::find_n(r, mode, &hay.text, bs, 64, fuel);
                             let steps = subject::steps();
                             let bts = subject::max_bts() as u64;
                             st.add("transitions", steps);
@@ -415,7 +434,7 @@ pub fn eval_pattern_text(cfg: &Cfg, ast: &Node, pat: Vec<u32>, flags: Flags, hay
                             if steps > cur_max {
                                 st.counters.insert("max_steps_seen".into(), steps);
                             }
-                            if rt.steps > 0 {
+                            if rt.steps > 0 && !rt.cut {
                                 let ratio = steps * 100 / (rt.steps + n as u64 + pat.len() as u64 + 16);
                                 if ratio > st.get("max_ratio_x100") {
                                     st.counters.insert("max_ratio_x100".into(), ratio);
@@ -424,7 +443,11 @@ pub fn eval_pattern_text(cfg: &Cfg, ast: &Node, pat: Vec<u32>, flags: Flags, hay
                             let who = format!("{:?}/{}", mode.backend, pn);
                             match o {
                                 Outcome::Fuel => {
-                                    vio!("search did not terminate within the step horizon", hay, bs, J::s(&format!("<= {} steps (reference used {})", bound, rt.steps)), J::s(&format!("{}: fuel of {} steps exhausted, backtrack store reached {}", who, cfg.fuel, bts)));
+                                    if decidable {
+                                        vio!("search did not terminate within K x the reference's steps", hay, bs, J::s(&format!("<= {} steps (reference used {})", bound, rt.steps)), J::s(&format!("{}: still running after {} steps, backtrack store reached {}", who, fuel, bts)));
+                                    } else {
+                                        st.add("undecided_reference_too_expensive", 1);
+                                    }
                                 }
                                 Outcome::Panic(m) => {
                                     vio!("panic during search", hay, bs, J::Null, J::s(&m));
@@ -433,9 +456,6 @@ pub fn eval_pattern_text(cfg: &Cfg, ast: &Node, pat: Vec<u32>, flags: Flags, hay
                                     if !v.is_empty() && pn == "opt" && mode == subject::BT {
                                         st.add("nontrivial", 1);
                                         st.sample(|| case_json(&pat, flags, hay, bs, "terminated", J::s(&format!("<= {} steps (reference used {})", bound, rt.steps)), J::s(&format!("{} steps, backtrack store <= {}", steps, bts))));
-                                    }
-                                    if !rt.cut && steps > bound {
-                                        vio!("search steps exceed K x reference steps", hay, bs, J::s(&format!("<= {} steps (reference used {})", bound, rt.steps)), J::s(&format!("{}: {} steps", who, steps)));
                                     }
                                     // each step pushes at most a few records (a loop entry pushes three, a
                                     // successful lookaround one per enclosed group)
@@ -586,7 +606,8 @@ pub fn iterate_history(re: &regress::Regex, mode: Mode, hay: &Hay, bs: usize, fu
             }};
         }
         match (mode.backend, mode.ascii) {
-            (subject::Backend::Backtrack, false) => drive!(backends::find::<backends::BacktrackExecutor>(re, text, bs)),
+            // the default executor is driven through the public entry point
+            (subject::Backend::Backtrack, false) => drive!(re.find_from(text, bs)),
             (subject::Backend::Backtrack, true) => drive!(backends::find_ascii::<backends::BacktrackExecutor>(re, text, bs)),
             #[cfg(feature = "pikevm")]
             (subject::Backend::Pike, false) => drive!(backends::find::<backends::PikeVMExecutor>(re, text, bs)),
@@ -613,7 +634,7 @@ pub fn unfold_model(re: &regress::Regex, mode: Mode, hay: &Hay, bs: usize, fuel:
     let mut cur = bs;
     let text = &hay.text;
     loop {
-        if cur > text.len() {
+        if cur > text.len() + 1 {
             break;
         }
         match subject::find_n(re, mode, text, cur, 1, fuel) {
@@ -724,20 +745,85 @@ pub fn hays_for(sp: &SweepProfile, thorough: bool, prop: Prop) -> Vec<Hay> {
 /// Run one property over a list of profiles. Returns merged statistics.
 pub fn run(run: &mut Run, prop: Prop, profile_names: &[&str]) -> Stats {
     let thorough = run.thorough();
-    let cfg = Cfg { pid: prop.id(), sig: shape, prop, fuel: if thorough { 2_000_000 } else { 300_000 }, ref_limit: 3_000_000, k_ratio: 256 };
+    let cfg = Cfg { pid: prop.id(), sig: shape, prop, fuel: if thorough { 4_000_000 } else { 600_000 }, ref_limit: 3_000_000, k_ratio: 64 };
     let mut total = drive(run, prop.id(), profile_names, &|sp, th| hays_for(sp, th, prop), &|ast, f, hays, known, st| eval_pattern(&cfg, ast, f, hays, known, st));
     if matches!(prop, Prop::C01 | Prop::C02 | Prop::C03 | Prop::C13) && std::env::var("VERIF_PROFILES").map(|v| v.is_empty() || v.contains("tokens")).unwrap_or(true) {
         let n = if thorough { 5 } else { if prop == Prop::C01 { 4 } else { 3 } };
         let t = drive_tokens(run, prop.id(), n, &|ast, pat, f, hays, known, st| eval_pattern_text(&cfg, ast, pat, f, hays, known, st));
         total = total.merge(t);
     }
+    if prop == Prop::C13 {
+        // the complete ASCII alphabet: every ASCII string of length <= 2 (16,513 strings) against a menu
+        // of patterns whose ASCII-mode implementation is separate code (fold, word chars, classes)
+        let mut hays: Vec<Hay> = vec![Hay::new(vec![])];
+        for a in 0..128u32 {
+            hays.push(Hay::new(vec![a]));
+            for b in 0..128u32 {
+                hays.push(Hay::new(vec![a, b]));
+            }
+        }
+        let menu: Vec<(&str, &str)> = vec![
+            ("(.)\\1", "is"), ("(.)\\1", "ius"), ("(.)\\1", "ivs"), ("(.)\\1", "s"), ("(?<=\\1(.))", "ius"), ("\\b", ""), ("\\B", ""), ("\\b", "iu"), ("\\w", ""), ("\\W", "i"), ("\\w", "iu"), ("\\d", ""), ("\\s", ""), ("\\S", "u"), (".", ""), (".", "s"),
+            ("[^a]", "i"), ("[a-z]", "i"), ("[\\x00-\\x7f]", ""), ("[^\\x00-\\x7f]", ""), ("\\x7f", ""), ("\\0", ""), ("k", "iu"), ("[k]", "iu"), ("s", "i"), ("\\u017f", "iu"), ("\\u212a", "iu"), ("^.$", "m"), ("^", "m"), ("$", "m"), ("a|\\W", "i"),
+            ("\\w+", ""), ("\\W\\b", ""), ("(?=\\w)", ""), ("(?<!\\w)", "i"), ("[\\W\\d]", "i"), ("\\p{ASCII}", "u"), ("\\P{Lu}", "iu"), ("\\p{L}", "u"),
+        ];
+        let known = &run.known;
+        let t = menu
+            .par_iter()
+            .fold(Stats::default, |mut st, (p, f)| {
+                let pat: Vec<u32> = p.chars().map(|c| c as u32).collect();
+                let fl = Flags::parse(f);
+                match crate::refparse::parse(&pat, fl) {
+                    Ok(ast) => eval_pattern_text(&cfg, &ast, pat, fl, &hays, known, &mut st),
+                    Err(e) => st.error(format!("C13 menu pattern {} does not parse: {}", p, e)),
+                }
+                st
+            })
+            .reduce(Stats::default, Stats::merge);
+        eprintln!("  C13 all ASCII strings <= 2: patterns={} cases={} violations={}", menu.len(), t.get("evaluations"), t.total_violations());
+        run.extra.push(("all_ascii_strings".into(), J::obj().set("patterns", J::u(menu.len() as u64)).set("haystacks", J::u(hays.len() as u64)).set("evaluations", J::u(t.get("evaluations")))));
+        total = total.merge(t);
+    }
+    if prop == Prop::C05 {
+        // one input per shortcut visible in the code: bounded loops over nullable bodies with large
+        // maxima on long runs (the empty-iteration cut-off is what keeps these linear)
+        let (pats, hays) = counted_nullable_family(thorough);
+        let known = &run.known;
+        let t = pats
+            .par_iter()
+            .fold(Stats::default, |mut st, ast| {
+                eval_pattern(&cfg, ast, Flags::default(), &hays, known, &mut st);
+                st
+            })
+            .reduce(Stats::default, Stats::merge);
+        eprintln!("  C05 counted-nullable family: patterns={} cases={} violations={}", pats.len(), t.get("evaluations"), t.total_violations());
+        run.extra.push(("counted_nullable_family".into(), J::obj().set("patterns", J::u(pats.len() as u64)).set("haystacks", J::u(hays.len() as u64)).set("evaluations", J::u(t.get("evaluations")))));
+        total = total.merge(t);
+    }
+    if total.get("patterns_skipped_after_violation_budget") > 0 {
+        run.caps.push(format!("exploration stopped early: {} patterns skipped after the violation budget was spent", total.get("patterns_skipped_after_violation_budget")));
+    }
     if total.get("undecided_fuel") > 0 && prop != Prop::C05 {
         run.caps.push(format!("{} searches cut by the fuel horizon (counted as undecided, see C05)", total.get("undecided_fuel")));
+    }
+    if total.get("undecided_reference_too_expensive") > 0 {
+        run.caps.push(format!("{} searches undecided: K x the reference's own steps exceeds the fuel cap (legitimately expensive patterns)", total.get("undecided_reference_too_expensive")));
     }
     if total.get("reference_cut") > 0 {
         run.caps.push(format!("{} haystacks skipped because the reference exceeded its own step budget", total.get("reference_cut")));
     }
     total
+}
+
+/// Per-property trimming of profile sizes in the quick tier (keeps every quick check under a minute;
+/// the thorough tier uses the full sizes everywhere).
+pub fn quick_size_adjust(pid: &str, profile: &str) -> usize {
+    match (pid, profile) {
+        ("C05", "P-1char") => 1,
+        ("C02", "P-anchor") | ("C03", "P-anchor") | ("C02", "P-dupref") | ("C03", "P-dupref") | ("C02", "P-named") | ("C03", "P-named") => 1,
+        ("C09", "P-1char") => 1,
+        _ => 0,
+    }
 }
 
 pub type EvalFn<'a> = &'a (dyn Fn(&Node, Flags, &[Hay], &Known, &mut Stats) + Sync);
@@ -752,7 +838,7 @@ pub fn drive(run: &mut Run, pid: &str, profile_names: &[&str], hays_fn: HaysFn, 
     for name in profile_names {
         let sp = profiles::by_name(name).expect("profile");
         let bump: usize = std::env::var("VERIF_SIZE_BUMP").ok().and_then(|s| s.parse().ok()).unwrap_or(0);
-        let max_size = (if thorough { sp.size_thorough } else { sp.size_quick }) + bump;
+        let max_size = (if thorough { sp.size_thorough } else { sp.size_quick - quick_size_adjust(pid, sp.profile.name).min(sp.size_quick - 1) }) + bump;
         let hays = hays_fn(&sp, thorough);
         let t0 = std::time::Instant::now();
         let stored = enumerate::enumerate(&sp.profile, max_size.saturating_sub(1).max(1));
@@ -873,4 +959,47 @@ pub fn drive_tokens(run: &mut Run, pid: &str, max_len: usize, eval: &(dyn Fn(&No
     );
     run.extra.push(("token_strings".into(), J::obj().set("max_len", J::u(max_len as u64)).set("strings", J::u(total)).set("patterns_evaluated", J::u(st.get("patterns_evaluated"))).set("evaluations", J::u(st.get("evaluations"))).set("haystacks", J::u(hays.len() as u64))));
     st
+}
+
+/// Bounded quantifiers with large maxima over bodies that can match the empty string, with tails that
+/// force backtracking through the loop, on runs of 4..=20 characters.
+pub fn counted_nullable_family(thorough: bool) -> (Vec<Node>, Vec<Hay>) {
+    let a = || Node::Char('a' as u32);
+    let b = || Node::Char('b' as u32);
+    let bodies: Vec<Node> = vec![
+        Node::Alt(vec![a(), Node::Empty]),
+        Node::Alt(vec![Node::Empty, a()]),
+        Node::group(Node::quant(a(), 0, Some(1), true)),
+        Node::quant(a(), 0, None, true),
+        Node::group(Node::Alt(vec![a(), Node::Empty])),
+    ];
+    let ns: Vec<u32> = if thorough { vec![4, 8, 12, 16, 20, 24, 32, 40, 64] } else { vec![4, 8, 12, 16, 24, 40] };
+    let mut pats = Vec::new();
+    for body in &bodies {
+        for &n in &ns {
+            for (min, greedy) in [(0u32, true), (3, true), (0, false)] {
+                let lp = Node::quant(body.clone(), min, Some(n), greedy);
+                pats.push(Node::Cat(vec![lp.clone(), b()]));
+                pats.push(Node::Cat(vec![lp.clone(), Node::quant(a(), 12, Some(12), true), b()]));
+                pats.push(Node::Cat(vec![Node::look(true, false, Node::Cat(vec![Node::Char('c' as u32), lp.clone()])), Node::Char('d' as u32)]));
+                pats.push(Node::Cat(vec![Node::group(lp.clone()), Node::BackRef(1), b()]));
+            }
+        }
+    }
+    let mut hays = Vec::new();
+    for k in [0usize, 1, 4, 8, 12, 16, 20] {
+        let run: Vec<u32> = std::iter::repeat('a' as u32).take(k).collect();
+        hays.push(Hay::new(run.clone()));
+        let mut x = run.clone();
+        x.push('b' as u32);
+        hays.push(Hay::new(x));
+        let mut y = vec!['c' as u32];
+        y.extend(run.iter());
+        y.push('d' as u32);
+        hays.push(Hay::new(y));
+        let mut z = run.clone();
+        z.push('c' as u32);
+        hays.push(Hay::new(z));
+    }
+    (pats, hays)
 }
